@@ -271,9 +271,77 @@ result = [n, bad[:3]]
     return dict(unit="bk-rac", func="bk_encoding.encode (run-time check)", paths=n, obligations=[ob], wall=0.0)
 
 
+def unit_string_path(eng, tier="quick"):
+    """the same question as the codec's closed obligation, asked through the assembler's own string path ('.ascii "c"', a char literal and a
+    tape name): a character outside the table is an error there too, and one inside gives exactly its table byte - no rewriting of the text
+    (case mapping, Unicode normalisation, ...) on the way from the source to the codec"""
+    code = r'''
+import unicodedata
+from pdpy11 import reports, bk_encoding as bk
+from pdpy11.parser import parse
+from pdpy11.compiler import Compiler
+E = bk.ENCODING_TABLE
+tier = %r
+def interesting(cp):
+    ch = chr(cp)
+    if cp < 0x3000 or ch in E:
+        return True
+    for form in ("NFC", "NFD", "NFKC", "NFKD"):
+        if unicodedata.normalize(form, ch) != ch:
+            return True
+    return ch.upper() != ch or ch.lower() != ch or ch.casefold() != ch
+cps = [cp for cp in range(0x110000) if not (0xD800 <= cp <= 0xDFFF) and (tier != "quick" or interesting(cp)) and chr(cp) not in '"\\\n\r\t']
+if tier != "quick":
+    cps = [cp for cp in cps if cp < 0x30000 or cp %% 7 == 0]
+bad, n = [], 0
+pairs = [("\u0438\u0306", None), ("e\u0301", None), ("K\u030a", None), ("\u0418\u0306\u0438\u0306", None)]
+for cp in cps:
+    ch = chr(cp)
+    for tmpl, width in ((".ascii \"%%s\"\n", 1), (".byte '%%s\n", 1)):
+        if ch == "'" and tmpl.startswith(".byte"):
+            continue            # '' is the (warned) empty literal by design
+        errs = []
+        try:
+            with reports.handle_reports(lambda p, i, *l: errs.append(i) if p is not reports.warning else None):
+                base, code = Compiler().compile_and_link_files([parse("t.mac", tmpl %% ch)])
+            got = ["ok", code.hex()]
+        except reports.UnrecoverableError:
+            got = ["fail", errs[:1]]
+        except Exception as e:
+            got = ["crash", type(e).__name__]
+        n += 1
+        want = ["ok", "%%02x" %% E[ch]] if ch in E else None
+        if (want is not None and got != want) or (want is None and got[0] != "fail"):
+            if len(bad) < 12: bad.append([tmpl.split()[0], "U+%%04X" %% cp, got, want or "an error"])
+for seq, _ in pairs:
+    errs = []
+    try:
+        with reports.handle_reports(lambda p, i, *l: errs.append(i) if p is not reports.warning else None):
+            base, code = Compiler().compile_and_link_files([parse("t.mac", ".ascii \"" + seq + "\"\n")])
+        got = ["ok", code.hex()]
+    except reports.UnrecoverableError:
+        got = ["fail", errs[:1]]
+    n += 1
+    want = ["ok", "".join("%%02x" %% E[c] for c in seq)] if all(c in E for c in seq) else None
+    if (want is not None and got != want) or (want is None and got[0] != "fail"):
+        bad.append([".ascii", "+".join("U+%%04X" %% ord(c) for c in seq), got, want or "an error"])
+result = [n, len(cps), bad]
+''' % tier
+    r = driver.native([{"kind": "py", "code": code}], driver.tree_root(), timeout=3000)[0]
+    n, ncp, bad = r["result"] if r["status"] == "ok" else (0, 0, [str(r)[:400]])
+    ob = dict(label="through-.ascii-and-a-char-literal:a-character-assembles-to-its-table-byte-iff-it-is-in-the-table-else-an-error(no rewriting of the text before the codec)",
+              kind="bounded", status="proved" if n and not bad else "failed", secs=0.0, path=[], witness=None, detail=str(bad[:6]), events=[], smt2=None, backend="cpython-native",
+              unit="string-path", func="types.QuotedString / CharLiteral -> bk_encoding (bounded stand-in)",
+              bound=("%d code points: all below U+3000, every table character, and every code point that any Unicode normalisation form or case mapping changes" % ncp) if tier == "quick"
+              else ("%d code points (all up to U+2FFFF, every 7th above)" % ncp) + "; plus four base+combining-mark sequences; two statement forms each",
+              cases=n, cfg=dict(kind="bounded"))
+    return dict(unit="string-path", func="types.QuotedString / CharLiteral -> bk_encoding (bounded stand-in)", paths=n, obligations=[ob], wall=0.0)
+
+
+
 def units(tier):
     return [("tables", "unit_closed", {}), ("encode", "unit_encode", {}), ("decode", "unit_decode", {}), ("charliteral", "unit_charliteral", {}),
-            ("rac", "unit_rac", dict(tier=tier))]
+            ("rac", "unit_rac", dict(tier=tier)), ("string-path", "unit_string_path", dict(tier=tier))]
 
 
 def canary(eng):
@@ -289,6 +357,8 @@ def canary(eng):
 
 def replay(o, tree):
     cfg = o.get("cfg") or {}
+    if o.get("kind") == "bounded":
+        return None          # evaluated on the real assembler already: the failing characters are in the obligation's detail
     probes = ["abc", "\u20acabc", "ab\u20ac", "a\u20acb\u4e2dc", "\u4e2d", "\u044f\u0411", "a\u20ac", "\u20ac\u20ac", "\x7f", "\u25a0", "\u00a4$"]
     code = "from pdpy11 import bk_encoding as bk\nres = []\nfor s in %r:\n    try:\n        res.append(['ok', s.encode('bk').hex()])\n    except UnicodeEncodeError as ex:\n        res.append(['err', ex.start, ex.end])\nresult = res\n" % (probes,)
     r = driver.native([{"kind": "py", "code": code}], tree)[0]
